@@ -9,6 +9,8 @@ The model is a plain JSON-able dict (``spec``) so that a case can be written int
     date             [Y, M, D, h, m, s, utc offset in minutes]         date_style: see DATE_STYLES
     message_id       "<...>"
     plain / html     str | None        (lines separated by "\\n")
+    extra_text       [{"subtype": "plain"|"html", "text", "charset", "cte", "pos": "after-body"|"end", "disp": None|"inline"}]
+                     further inline text parts of the multipart/mixed container (mailing-list footer, gateway disclaimer)
     body             {"plain": [charset, cte], "html": [charset, cte]}
     atts             [{"filename" ("" = the part carries no filename / name parameter), "ctype" (declared type - need not
                        be the canonical one of the file name's extension), "data" (bytes), "cte",
@@ -83,6 +85,12 @@ FROMLIKE_LINES = (
     "FROM {t}@example.com Tue Jan  2 23:30:00 2024",   # upper case
     "From",                                        # bare word
     "Sent From {t} 2024",
+    # begin with "From " and hold a four-digit number, but are not shaped like a separator (no date at the end of the line):
+    # escaped like every From line in an mboxrd mailbox, left as they are in a mailbox that escapes look-alikes only
+    "From here on, the 2024 figures are final ({t}).",
+    "From 10:00:00 2025 onwards {t} applies",
+    "From {t} 1999 to the present day",
+    "From 2019 until now: {t}",
 )
 
 
@@ -384,6 +392,16 @@ def build_message(spec: dict, pol_override=None, with_headers: bool | None = Non
         m.make_mixed()
     for a in attached:
         _add_att(m, a, pol, related=False)
+    if spec.get("extra_text"):
+        if m.get_content_type() != "multipart/mixed":
+            m.make_mixed()
+        for x in spec["extra_text"]:
+            part = EmailMessage(policy=pol)
+            part.set_content(x["text"], subtype=x["subtype"], charset=x["charset"], cte=x["cte"])
+            if x.get("disp"):
+                part["Content-Disposition"] = x["disp"]
+            kids = m.get_payload()
+            kids.insert(1 if x["pos"] == "after-body" else len(kids), part)
     return m
 
 
@@ -453,6 +471,21 @@ def attachment_truth_bytes(a: dict, pol) -> bytes:
 _FROM_ESC = re.compile(rb"^>*From ")
 
 
+_LOOKALIKE = re.compile(rb"^>*From \S+.*\d{4}[ \t]*$")      # "From " + token + ... + four digits at the end: could be taken for a separator
+ESCAPE_STYLES = ("mboxrd", "lookalikes-only")
+
+
+def needs_escape(line: bytes, style: str) -> bool:
+    """mboxrd: every ^>*From(blank) line.  lookalikes-only: what writers without a general quoting rule (mboxcl / mboxcl2,
+    home-grown exporters) must at least protect - lines shaped like a separator; every other From line stays as it is."""
+    return bool(_FROM_ESC.match(line)) if style == "mboxrd" else bool(_LOOKALIKE.match(line.rstrip(b"\r\n")))
+
+
+def escape_text(text: str, style: str) -> str:
+    """What the mailbox writer's escaping does to a decoded 7bit/8bit/QP body under ``style``."""
+    return "\n".join((">" + ln) if needs_escape(ln.encode("utf-8", "surrogateescape"), style) else ln for ln in text.split("\n"))
+
+
 def mboxrd_escape_text(text: str) -> str:
     """What the writer's escaping does to a decoded 7bit/8bit/QP body: '>' before every ^>*From line."""
     return "\n".join((">" + ln) if re.match(r">*From ", ln) else ln for ln in text.split("\n"))
@@ -465,7 +498,7 @@ def asctime(date7) -> str:
 
 
 def write_mbox(messages: list[bytes], envelopes: list[tuple[str, str]], eol: bytes = b"\n",
-               blank_lines: int = 1, final_blank: bool = True) -> tuple[bytes, int]:
+               blank_lines: int = 1, final_blank: bool = True, escape: str = "mboxrd") -> tuple[bytes, int]:
     """mboxrd: ``From <sender> <asctime>`` separator, '>' escaping of ^>*From body lines, blank line after
     each message.  Returns (bytes, number of escaped lines)."""
     out, escaped = [], 0
@@ -475,7 +508,7 @@ def write_mbox(messages: list[bytes], envelopes: list[tuple[str, str]], eol: byt
         if lines and lines[-1] == b"":
             lines.pop()
         for ln in lines:
-            if _FROM_ESC.match(ln):
+            if needs_escape(ln, escape):
                 ln = b">" + ln
                 escaped += 1
             out.append(ln + eol)
@@ -779,8 +812,28 @@ def random_spec(rng, tok, fx: dict, *, allow=None, depth: int = 0) -> dict:
     feats.append("struct:" + nest)
     feats.append(f"att:n={natt}")
     feats += sorted({f"att:{a['kind']}:{a['cte']}" for a in atts if a["disp"] != "inline"} | {"att:mismatch:" + a["mismatch"] for a in atts if a.get("mismatch")})
+    # ---- further inline text parts next to the body: a list footer / a gateway's disclaimer.  "The body" of such a message is
+    # its first text/plain (text/html) part, or all of them in document order - never a later one alone, never another order
+    spec["extra_text"] = []
+    if depth == 0 and allow.get("extra_text", True) and rng.random() < 0.12:
+        for sub in rng.choice([["plain"], ["html"], ["plain", "html"], ["html", "plain"], ["plain", "plain"]]):
+            cs = rng.choice(["utf-8", "us-ascii", "iso-8859-1"])
+            cte = rng.choice(["7bit"] if cs == "us-ascii" else ["8bit", "quoted-printable", "base64"])
+            sample = rng.choice(SAMPLES[cs])
+            text = (f"-- \n{tok('b')} list footer {sample}\n{tok('b')}\n" if sub == "plain" else f"<div><p>{tok('h')} disclaimer {sample}</p><p>{tok('h')}</p></div>\n")
+            spec["extra_text"].append({"subtype": sub, "text": text, "charset": cs, "cte": cte, "pos": rng.choice(["end", "end", "after-body"]), "disp": rng.choice([None, None, "inline"])})
+        feats.append("struct:extra-text:" + "+".join(x["subtype"] for x in spec["extra_text"]))
     spec["features"] = sorted(set(feats))
     return spec
+
+
+def text_parts(spec: dict, subtype: str) -> list[str]:
+    """The inline text/<subtype> parts of the message in document order (the main body first, then the extra parts:
+    those placed after the body before those at the end)."""
+    main = [spec[subtype]] if spec.get(subtype) is not None else []
+    extra = spec.get("extra_text") or []
+    ordered = [x for x in extra if x["pos"] == "after-body"][::-1] + [x for x in extra if x["pos"] != "after-body"]
+    return main + [x["text"] for x in ordered if x["subtype"] == subtype]
 
 
 # Attachments whose declared type is a supported one but not the canonical type of the file name's extension (all seen
